@@ -88,10 +88,10 @@ def h_named_leaf_modules(H):
 PROPERTY = {}
 
 HARNESSES = [
-    dict(name='named-leaf-modules', fn='h_named_leaf_modules', property=['C04', 'C05', 'C06'],
+    dict(name='named-leaf-modules', bounded='enumerated graph topologies', fn='h_named_leaf_modules', property=['C04', 'C05', 'C06'],
          functions=['plinio/graph/inspection.py::named_leaf_modules', 'plinio/graph/inspection.py::uniquify_leaf_modules', 'plinio/graph/inspection.py::shapes_dict',
                     'plinio/graph/utils.py::fx_to_nx_graph'], quick=[{}], thorough=[{}]),
-    dict(name='shared-features-map', fn='h_shared_map', property=['C08', 'C01', 'C09', 'C11'],
+    dict(name='shared-features-map', bounded='enumerated graph topologies', fn='h_shared_map', property=['C08', 'C01', 'C09', 'C11'],
          functions=['plinio/methods/pit/graph.py::build_shared_features_map', 'plinio/graph/utils.py::fx_to_nx_graph', 'plinio/graph/inspection.py::get_graph_inputs',
                     'plinio/graph/inspection.py::get_graph_outputs'],
          quick=[dict(topo=t) for t in ('chain', 'head-through-pool-and-flatten', 'residual', 'residual-with-input', 'concat')],
